@@ -174,11 +174,17 @@ pub enum AbsorbVia {
     Reader(ReaderScript),
     /// update_reader(&mut dyn Read) / by-ref adaptor
     ReaderDyn(ReaderScript),
+    /// update_reader(SimReader); when the reader stopped early (hard error, early EOF) the caller retries with a
+    /// well-behaved reader over exactly the bytes not yet yielded, so the whole fragment ends up absorbed
+    ReaderRetry(ReaderScript),
     Rayon { width: u8 },
     SimJoin(JoinPolicy),
     Mmap,
     MmapRayon,
     ReaderFile,
+    /// update_mmap (how 0, 2) / update_mmap_rayon (how 1, 3) on a path that cannot be hashed: missing (how 0, 1) or a
+    /// directory (how 2, 3). Must return Err and leave the hasher exactly as it was.
+    PathError { how: u8 },
     /// a file shared by every task that absorbs the same bytes this way (one path, created once, kept for the run):
     /// how 0 update_mmap, 1 update_mmap_rayon on a one-thread pool adopted by the calling task (its joins and kernel
     /// dispatches are scheduling points of that task), 2 update_reader(File)
@@ -306,6 +312,15 @@ pub enum Op {
     CInit { slot: usize, flavour: u8, mode: Mode, raw: bool },
     CUpdate { c: usize, data: usize, off: usize, len: usize, tbb: Option<JoinPolicy> },
     CFinalize { c: usize, seek: Option<u64>, out_len: usize },
+    /// b3sum on a path whose stat size says nothing about its contents: kind 0 /proc/version, 1 a pipe opened by
+    /// path (/dev/stdin)
+    CliSpecial { kind: u8, flags: CliFlags, data: usize },
+    /// a sparse file of 2^32 + extra bytes (random head and tail, a hole between) hashed by path:
+    /// via 0 update_mmap, 1 update_mmap_rayon (16 threads), 2 update_reader(File)
+    HugeFile { extra: u32, seed: u64, via: u8 },
+    /// one blake3_hasher_update call with input_len = 2^32 + extra (a read-only zero mapping between inaccessible
+    /// pages), then finalize; compared with the Rust crate fed the same bytes in pieces. The slot is dropped afterwards.
+    CUpdateHuge { c: usize, extra: u32 },
     /// finalize with out_len = 2^32 + extra into a virtual window (one small memfd mapped over and over, guard
     /// page behind it): size_t arithmetic above 32 bits; judged by the memory-safety monitors only
     CFinalizeHuge { c: usize, seek: Option<u64>, extra: u32 },
@@ -361,6 +376,9 @@ impl Op {
             Op::CUpdate { .. } => "CUpdate",
             Op::CFinalize { .. } => "CFinalize",
             Op::CFinalizeHuge { .. } => "CFinalizeHuge",
+            Op::CUpdateHuge { .. } => "CUpdateHuge",
+            Op::HugeFile { .. } => "HugeFile",
+            Op::CliSpecial { .. } => "CliSpecial",
             Op::CReset { .. } => "CReset",
             Op::CCopy { .. } => "CCopy",
             Op::CSetMask { .. } => "CSetMask",
@@ -420,6 +438,11 @@ pub enum Damage {
     /// edit 0 substitute, 1 insert, 2 delete; position counted in chars of the line
     Line { line: usize, pos: usize, edit: u8, ch: String },
     AppendLine { text_hex: String },
+    /// a copy of line `line` appended with `suffix` added to its file name ("/" or "/." after a regular file: the
+    /// same bytes could be read through no such path)
+    DupWithSuffix { line: usize, suffix_hex: String },
+    /// the whole checkfile repeated n times (long checkfiles: reader buffer boundaries fall anywhere in a line)
+    RepeatSelf { n: usize },
     /// the lines of another saved checkfile appended (a checkfile mixing --tag and plain lines)
     Concat { other: usize },
     /// n copies of one line (the failure count of a --check run reaches and passes 256, 65536)
